@@ -170,7 +170,8 @@ def config(m):
         isothermal=bool(m.temperatureParameters._isIsothermal), kB=float(BOLTZMANN_CONSTANT), a0=float(m.matrixParameters.volume.a),
         theta=float(m.matrixParameters.theta), minDens=float(c.minNucleateDensity), minComp=float(c.minComposition),
         minRadius=float(c.minRadius), maxDissolution=float(c.maxDissolution), maxTempChange=float(c.maxTempChange),
-        x0=_cp(m.pData.composition[0]), phases=phases,
+        # the composition the USER gave (setup() copies it into row 0; reading row 0 back would hide a defect that rewrites it)
+        x0=_cp(np.atleast_1d(np.array(m.matrixParameters.initComposition, dtype=float))), phases=phases,
         effEnabled=bool(m.matrixParameters.effectiveDiffusion.isEnabled), effOhm=_cp(m.matrixParameters.effectiveDiffusion.ohmInterp),
         effVal=_cp(m.matrixParameters.effectiveDiffusion.effDiffInterp))
 
